@@ -95,9 +95,8 @@ Propagate ==
 UsageOf(t) == CASE t = 1 -> 1 [] t = 2 -> 2 [] t = 3 -> 4
 Register ==
     /\ pc = "reg"
-    /\ regd' = {[b |-> e.b, t |-> t] : e \in stored, t \in {x \in {1, 2, 3} : UsageOf(x) \in DOMAIN Pols}}
-                 \cap {r \in [b : {e.b : e \in stored}, t : {1, 2, 3}] :
-                         \E e \in stored : e.b = r.b /\ UsageOf(r.t) \in e.usage}
+    /\ regd' = {r \in [b : {e.b : e \in stored}, t : {1, 2, 3}] :
+                   \E e \in stored : e.b = r.b /\ UsageOf(r.t) \in e.usage}
     /\ pc' = "done"
     /\ UNCHANGED <<cfg, stored, sent, last>>
 
